@@ -221,23 +221,50 @@ def one_draw(reg, dist, via):
     return reg.uniformPointInner()
 
 
-def draw_batch(reg, n, rng, npseed, via, max_consec=400):
+class Livelock(Exception):
+    pass
+
+
+class Capped:
+    """Seam wrapper: a single draw that consumes more than `cap` random numbers is abandoned (e.g. the
+    probability-zero event u = 0.0 selecting a zero-area triangle makes the polygon sampler loop forever)."""
+
+    def __init__(self, impl, cap):
+        self.impl, self.cap, self.n = impl, cap, 0
+
+    def __getattr__(self, name):
+        f = getattr(self.impl, name)
+
+        def g(*a, **k):
+            self.n += 1
+            if self.n > self.cap:
+                raise Livelock(name)
+            return f(*a, **k)
+
+        return g
+
+
+def draw_batch(reg, n, rng, npseed, via, stats, max_consec=400, cap=200000):
     """Up to n accepted draws; gives up after max_consec rejections in a row before the first success
-    (8x that later) or 8n attempts.  Rejections are rejected scenes, not outcomes."""
+    (8x that later) or 8n rejections.  Rejections are rejected scenes, not outcomes."""
     import scenic.core.regions as R
     from scenic.core.distributions import RejectionException
 
     np.random.seed(npseed % (1 << 32))
     dist = R.Region.uniformPointIn(reg) if via else None
-    pts, rej, consec = [], 0, 0
+    pts, rej, consec, rng = [], 0, 0, Capped(rng, cap)
     with patched_random(rng):
         while len(pts) < n and consec <= (max_consec * 8 if pts else max_consec) and rej <= 8 * n + max_consec:
+            rng.n = 0
             try:
                 pts.append(xyz(one_draw(reg, dist, via)))
                 consec = 0
             except RejectionException:
                 rej += 1
                 consec += 1
+            except Livelock:
+                stats["unjudged:draw-exceeded-rng-call-cap"] = 1
+                break
     return np.array(pts, float).reshape(-1, 3), rej
 
 
@@ -331,7 +358,7 @@ def uniformity(ref, P, info, stats, extra):
         return []
     sel = np.zeros(len(Rp), bool)
     sel[::11] = True  # 11 is coprime to every Halton base in use
-    cells = rr.KDCells(Rp[sel], depth=5)
+    cells = rr.KDCells(Rp[sel], depth=5 if len(P) >= 2500 else 4)
     est = Rp[~sel]
     q = np.bincount(cells.index(est), minlength=cells.ncell) / len(est)
     se = np.sqrt(q * (1 - q) / len(est))
@@ -383,8 +410,9 @@ def relevel(ref, z=None):
 
 
 def kite(ref):
-    """The polygon SectorRegion builds for itself: circle & quadrilateral mask -- not the sector beyond pi."""
-    if not (isinstance(ref, rr.DiscRef) and ref.ang and ref.ang > math.pi):
+    """The polygon SectorRegion builds for itself: circle & quadrilateral mask (centre, two arc ends, the point
+    2r ahead).  Beyond 120 degrees the mask's edges cut through the disc, so the polygon is not the sector."""
+    if not (isinstance(ref, rr.DiscRef) and ref.ang and ref.ang > math.tau / 3 + 1e-9):
         return ref
     d = lambda r, h: (ref.c[0] - r * math.sin(h), ref.c[1] + r * math.cos(h))  # noqa: E731  (offsetRadially)
     quad = [tuple(ref.c[:2]), d(ref.r, ref.hd + ref.ang / 2), d(2 * ref.r, ref.hd), d(ref.r, ref.hd - ref.ang / 2)]
@@ -401,7 +429,7 @@ def defect_models(A, B, op, reg):
     if R.toPolygon(A.reg) is not None and R.toPolygon(B.reg) is not None and any(getattr(x.reg, "z", 0) != 0 for x in (A, B)):
         tr.append(("polygonal-composition-ignores-z", lambda r: relevel(r, 0.0)))
     if any(kite(x.ref) is not x.ref for x in (A, B)):
-        tr.append(("sector-polygon-wrong-beyond-pi", kite))
+        tr.append(("sector-polygon-mask-cuts-arc", kite))
     for keys in ([t] for t in tr) if len(tr) < 2 else ([tr[0]], [tr[1]], tr):
         a, b = A.ref, B.ref
         for _, f in keys:
@@ -453,10 +481,10 @@ def run(tape):
         slow = isinstance(reg, R.MeshVolumeRegion) or (op and any(isinstance(x.reg, R.MeshRegion) for x in (A, B)))
         n = 200 if ref.dim == 0 else Nslow if slow else N
         law = enumerate_law(reg, stats) if ref.dim == 0 else None
-        P, rej = draw_batch(reg, n, SeededRNG(seed), seed, via)
+        P, rej = draw_batch(reg, n, SeededRNG(seed), seed, via, stats)
         scripts = [[0.0] * 40, [1 - 2.0 ** -53] * 40, [0.5] * 40, [0.0, 1 - 2.0 ** -53] * 20,
                    [halton(h0 + i // 2 + 1, 2 + i % 2) for i in range(24)], [halton(h0 + i + 1, 5) for i in range(12)]]
-        S = [draw_batch(reg, 3, ScriptedRNG(sc, seed=seed), seed + 1, via, max_consec=100)[0] for sc in scripts]
+        S = [draw_batch(reg, 3, ScriptedRNG(sc, seed=seed), seed + 1, via, stats, max_consec=100, cap=3000)[0] for sc in scripts]
         S = np.concatenate(S)
         stats["draws"], stats["rejections"], stats["scripted-draws"], steps = len(P), rej, len(S), len(P) + len(S)
         dig.update(np.round(P, 9).tobytes() + np.round(S, 9).tobytes() + repr(sorted(law[0].items()) if law else None).encode())
